@@ -747,20 +747,21 @@ func (s *Scanner) tokSEMICOLON() token.Token {
 // and thus relative to the file set.
 func (s *Scanner) Scan() (t types.Token) {
 scanAgain:
+	// determine token value
+	insertSemi := false
+	if s.unitVal != "" { // number with unit: the unit ends at the current offset (before any white space)
+		insertSemi = true
+		t.Pos = s.file.Pos(s.offset - len(s.unitVal))
+		t.Tok, t.Lit = token.UNIT, s.unitVal
+		s.unitVal = ""
+		goto done
+	}
+
 	s.skipWhitespace()
 
 	// current token start
 	t.Pos = s.file.Pos(s.offset)
 
-	// determine token value
-	insertSemi := false
-	if s.unitVal != "" { // number with unit
-		insertSemi = true
-		t.Pos -= token.Pos(len(s.unitVal))
-		t.Tok, t.Lit = token.UNIT, s.unitVal
-		s.unitVal = ""
-		goto done
-	}
 	switch ch := s.ch; {
 	case isLetter(ch):
 		insertSemi = true
